@@ -100,6 +100,14 @@ fn verify_image(ctx: &Ctx, img: &Image, idx: usize, out: &mut RunOut, depth: u32
         vfs::pause_capture(false);
         vfs::set_cur_req(img.req);
     }
+    // a restarted server is a new process: for a share of the images the directory is first opened
+    // by a fresh child process, exactly as a restart would
+    if depth == 0 && !nested_capture && idx % 6 == 1 {
+        out.bump("probe.image_first_opened_by_fresh_process");
+        if !crate::world::first_open_in_fresh_process(&dir) {
+            vs.push(viol(&["C04"], "crash.cannot_open", format!("{label}: a freshly started process cannot open the database after the crash")));
+        }
+    }
     let mut matched: Option<World> = None;
     let mut last_err = String::new();
     for (ci, m) in allowed.iter().enumerate() {
